@@ -59,3 +59,8 @@ try:
     from quote_patterns import *  # noqa: F401,F403
 except ImportError:
     pass
+
+try:
+    from undo_patterns import *  # noqa: F401,F403
+except ImportError:
+    pass
